@@ -295,6 +295,39 @@ def run(ctx):
         if a != model[t]:
             diffs.append({"suite": "hist-pristine", "input_hex": t.hex(), "impl": a[:300], "model": model[t][:300]})
     # dedupe
+    # filter BUILDING is independent of what the same definition objects were used for before: every scenario's definition, as
+    # tuples and as lists, used for a first set, then — the very same objects — for a second set and for an update; each
+    # result must be what a private copy of the definition gives
+    import aliasing, copy
+    for name, conds, acts, mt in factory_scenarios.scenarios():
+        for as_lists in (False, True):
+            cd, ad = (aliasing.listify(conds), aliasing.listify(acts)) if as_lists else (conds, acts)
+            priv = copy.deepcopy((cd, ad))
+            try:
+                ref = FiltersSet("t"); ref.addfilter("f", priv[0], priv[1], mt)
+                want = str(ref)
+            except Exception as e:  # noqa
+                want = "raised " + type(e).__name__
+            outs = []
+            for k_ in range(3):
+                try:
+                    fsx = FiltersSet("t")
+                    if k_ < 2:
+                        fsx.addfilter("f", cd, ad, mt)
+                    else:
+                        fsx.addfilter("f", [("Subject", ":is", "placeholder")], [("keep",)])
+                        fsx.updatefilter("f", "f", cd, ad, mt)
+                        # the placeholder may have left a require behind: compare the filter text only
+                    outs.append(str(fsx))
+                except Exception as e:  # noqa
+                    outs.append("raised " + type(e).__name__)
+            evals += 3
+            body = lambda s_: s_[s_.find("# Filter:"):] if "# Filter:" in s_ else s_
+            for k_, o in enumerate(outs):
+                if body(o) != body(want):
+                    viol.append({"what": "scenario %s (%s): use number %d of the same definition objects builds %r, a private copy builds %r" % (
+                        name, "lists" if as_lists else "tuples", k_ + 1, body(o)[:120], body(want)[:120])})
+                    break
     seen, uv = set(), []
     for v in viol:
         k = (v.get("input_hex"), v["what"][:60])
